@@ -609,3 +609,10 @@ add("extra-samples-of-a-geometry-step-dropped", F, ["C03"], "dfols/controller.py
 add("s-extra-samples-walked-as-rows", S, ["C03", "C17", "C04"], "dfols/controller.py",
     "        for i in range(1, num_samples_run):\n            self.model.add_new_sample(knew, rvec_extra=rvec_list[i, :])\n\n        # Estimate actual reduction",
     "        for rvec_extra in rvec_list[1:num_samples_run, :]:\n            self.model.add_new_sample(knew, rvec_extra=rvec_extra)\n\n        # Estimate actual reduction")
+# C16-3b / C17-5b / C06-7 (from the mutation sweep)
+add("base-shift-call-dropped-rebasing-kept", F, ["C16"], "dfols/solver.py", "                control.model.shift_base(base_shift)\n", "                pass\n", "C16-3b")
+add("swap-re-points-kopt-one-way-only", F, ["C17"], "dfols/model.py", "        elif self.kopt == k2:\n            self.kopt = k1\n", "        elif self.kopt == k2:\n            pass\n", "C17-5b")
+add("box-projector-with-identical-ends", F, ["C06"], "dfols/controller.py", "                proj = lambda x: pbox(x, self.model.xbase + self.model.sl, self.model.xbase + self.model.su)",
+    "                proj = lambda x: pbox(x, self.model.xbase + self.model.su, self.model.xbase + self.model.su)", "C06-7")
+# C18-3b: pre-repair form of F18f
+add("initial-radius-not-validated-against-the-cap", F, ["C18"], "dfols/solver.py", "    if exit_info is None and rhobeg > 1.0e10:\n", "    if exit_info is None and rhobeg > 1.0e300:\n", "C18-3b")
